@@ -185,18 +185,21 @@ def _apply(world: World, op):
     elif kind == "Ev":
         _evaluate(world.ahb(op[1]))
     elif kind == "Flood":
-        base = world.uid * 100000
+        # fresh distinct strings with keys INSIDE the number ranges (distinct by key pair + the execution's padding)
         for j in range(FLOOD_N):
-            k = str(base + j)
-            t = I.tree_to_tuple(I.parse_condition_expression_to_tree(f"[{k}]"))
-            if t != ("condition", ("%CONDITION_KEY", k)):
-                viol.append({"kind": "parse-differs-from-fresh", "target": f"flood [{k}]", "expected": repr(("condition", k)),
+            k1, k2 = str(1 + j % 499), str(501 + (j // 499) % 400)
+            fs = f"[{k1}]U[{k2}]{world.pad}"
+            r = I.try_call(I.parse_condition_expression_to_tree, fs)
+            t = I.tree_to_tuple(r[1]) if r[0] == "ok" else ("exc", r[1])
+            if t != ("and_composition", ("condition", ("%CONDITION_KEY", k1)), ("condition", ("%CONDITION_KEY", k2))):
+                viol.append({"kind": "parse-differs-from-fresh", "target": f"flood {fs!r}", "expected": f"and([{k1}], [{k2}])",
                              "observed": repr(t)[:300]})
                 break
-            ta = I.tree_to_tuple(I.parse_ahb_expression_to_single_requirement_indicator_expressions(f"X[{k}]"))
-            if ta != ("ahb_expression", ("single_requirement_indicator_expression", ("%PREFIX_OPERATOR", "X"),
-                                         ("%CONDITION_EXPRESSION", f"[{k}]"))):
-                viol.append({"kind": "parse-differs-from-fresh", "target": f"flood X[{k}]", "expected": "X + [k]",
+            fa = f"X{world.pad}[{k1}][{k2}]"
+            r = I.try_call(I.parse_ahb_expression_to_single_requirement_indicator_expressions, fa)
+            ta = I.tree_to_tuple(r[1]) if r[0] == "ok" else ("exc", r[1])
+            if not (isinstance(ta, tuple) and ta[0] == "ahb_expression" and "".join(repr(ta).split()).count(f"[{k1}][{k2}]") == 1):
+                viol.append({"kind": "parse-differs-from-fresh", "target": f"flood {fa!r}", "expected": f"X + [{k1}][{k2}]",
                              "observed": repr(ta)[:300]})
                 break
         world.flooded = True
